@@ -60,6 +60,7 @@ type Cfg struct {
 	// SlowOn: the controller's filter takes one (virtual) second to decide about objects of this name with a version
 	// above 1 (a slow user predicate): the controller is legitimately busy while watch frames keep arriving
 	SlowOn       string
+	StartRV      int // the server's versions start above this (-1: the first object gets resourceVersion 0)
 	Period       time.Duration
 	Pre          []Mut
 	Hist         []Mut
@@ -185,6 +186,7 @@ func (in *Inst) Run() {
 	vrand.Floats = []float64{0.5}
 	hx.Drops = 0
 	in.Srv = fakeapi.New()
+	in.Srv.SetStartRV(c.StartRV)
 	in.Srv.ListFaults = c.ListFaults
 	in.Srv.WatchFaults = c.WatchFaults
 	in.Srv.DefaultWatch = c.DefaultWatch
